@@ -28,6 +28,8 @@ type Session struct {
 	InitSkipped []string
 	z        *z3proc
 	fnNames  map[string]bool
+	fp0      uint64 // fingerprint of the repository packages' globals after initialisation
+	Reinits  int
 }
 
 // Load type-checks dir's packages with the overlay, builds SSA for the whole program
@@ -88,6 +90,7 @@ func Load(dir string, overlay map[string][]byte, patterns []string, pkgPath stri
 		}
 	}
 	theExplorer = &Explorer{}
+	tInit := time.Now()
 	lenientInit = true
 	func() {
 		defer func() {
@@ -100,6 +103,13 @@ func Load(dir string, overlay map[string][]byte, patterns []string, pkgPath stri
 	lenientInit = false
 	if err != nil {
 		return nil, err
+	}
+	if os.Getenv("GOSYM_DEBUG") != "" {
+		fmt.Fprintf(os.Stderr, "init took %v\n", time.Since(tInit))
+		t1 := time.Now()
+		sx := &Session{prog: prog, i: i, target: target}
+		sx.Reinit()
+		fmt.Fprintf(os.Stderr, "re-init of repository packages took %v\n", time.Since(t1))
 	}
 	s := &Session{prog: prog, i: i, target: target, LoadTime: time.Since(t0), InitSkipped: initSkipped}
 	for k := range covFuncs {
@@ -149,6 +159,7 @@ type JobResult struct {
 	MaxQueryMs  int64          `json:"max_query_ms"`
 	ModelHits   int            `json:"model_hits"`
 	Fallbacks   int            `json:"fallbacks"`
+	Reinits     int            `json:"reinits"` // paths after which package-level state had to be re-initialised
 	Reached     map[string]int `json:"reached"`
 	Findings    []Finding      `json:"findings"`
 	Unsupported map[string]int `json:"unsupported"`
@@ -228,6 +239,17 @@ func (s *Session) RunJob(job Job) (res JobResult) {
 	if len(job.Prefixes) == 0 {
 		start = [][]decision{nil}
 	}
+	if s.fp0 == 0 {
+		s.fp0 = s.fingerprint()
+	}
+	reinits0 := s.Reinits
+	e.AfterPath = func() {
+		if s.fingerprint() != s.fp0 {
+			s.Reinit()
+			s.fp0 = s.fingerprint()
+			s.Reinits++
+		}
+	}
 	var rem [][]decision
 	func() {
 		defer func() {
@@ -243,6 +265,7 @@ func (s *Session) RunJob(job Job) (res JobResult) {
 	res.Queries, res.Sat, res.Unsat, res.Unknown = st.Queries, st.Sat, st.Unsat, st.Unknown
 	res.SolverMs, res.MaxQueryMs = st.SolverTime.Milliseconds(), st.MaxQuery.Milliseconds()
 	res.ModelHits, res.Fallbacks = st.ModelHits, st.Fallbacks
+	res.Reinits = s.Reinits - reinits0
 	if e.alt != nil {
 		e.alt.close()
 	}
@@ -267,4 +290,30 @@ func (s *Session) Close() {
 	if s.z != nil {
 		s.z.close()
 	}
+}
+
+// Reinit puts the package-level state of the repository's packages back to what their
+// initialisers produce: every global is zeroed and the initialisers are run again
+// (initialisers of other packages are guarded and do not run twice). Called before every
+// path, so that a path can never observe state left behind by another path.
+func (s *Session) Reinit() {
+	for _, pkg := range s.prog.AllPackages() {
+		if !covPkgs[pkg.Pkg.Path()] {
+			continue
+		}
+		for _, m := range pkg.Members {
+			if v, ok := m.(*ssa.Global); ok {
+				*s.i.globals[v] = zero(mustDeref(v.Type()))
+			}
+		}
+	}
+	saved := theExplorer
+	theExplorer = &Explorer{}
+	lenientInit = true
+	depth := callDepth
+	callDepth = 0
+	call(s.i, nil, token.NoPos, s.target.Func("init"), nil)
+	callDepth = depth
+	lenientInit = false
+	theExplorer = saved
 }
